@@ -47,6 +47,24 @@ fn read_val(text: &str) -> Option<V> {
     sut::with_int_mode(true, || sut::parse_one(text).ok().and_then(|r| sut::from_rich(r, true).ok()))
 }
 
+/// equal except at atoms where one side's bytes are text (0x41, 65, -3) that reads to the other
+/// side's bytes
+fn same_up_to_spelling(a: &V, b: &V) -> bool {
+    fn reads_to(text: &[u8], bytes: &[u8]) -> bool {
+        std::str::from_utf8(text)
+            .ok()
+            .filter(|t| !t.is_empty() && t.chars().all(|c| c.is_ascii_alphanumeric() || c == '-'))
+            .and_then(read_val)
+            .map(|v| matches!(&v, V::A(x) if x.as_slice() == bytes))
+            .unwrap_or(false)
+    }
+    match (a, b) {
+        (V::A(x), V::A(y)) => x == y || reads_to(x, y) || reads_to(y, x),
+        (V::P(a1, a2), V::P(b1, b2)) => same_up_to_spelling(a1, b1) && same_up_to_spelling(a2, b2),
+        _ => false,
+    }
+}
+
 /// a row modulo location fields, with every value field re-read (the two input forms may spell
 /// the same value differently: 0x0100 vs 256)
 fn strip_locations(r: &Row) -> Row {
@@ -166,7 +184,7 @@ pub fn judge(code: &V, env: &V, rich: Option<Rc<SExp>>, symbols: &HashMap<String
             let mut a1: Vec<Row> = rows.iter().map(strip_locations).collect();
             let mut a2: Vec<Row> = rows_h.iter().map(strip_locations).collect();
             if a1.len() == a2.len() {
-                for (x, y) in a1.iter_mut().zip(a2.iter_mut()) {
+                for (ri, (x, y)) in a1.iter_mut().zip(a2.iter_mut()).enumerate() {
                     let keys: Vec<String> = x.keys().filter(|k| !matches!(k.as_str(), "Row" | "Argument-Refs" | "Failure")).cloned().collect();
                     for k in keys {
                         let unreadable = |r: &Row| r.get(&k).map(|t| read_val(t).is_none()).unwrap_or(false);
@@ -174,6 +192,22 @@ pub fn judge(code: &V, env: &V, rich: Option<Rc<SExp>>, symbols: &HashMap<String
                             x.remove(&k);
                             y.remove(&k);
                             st.label("hex-vs-source:field-not-re-readable(skipped)");
+                            continue;
+                        }
+                        // the same for a bare word that reads back as something else: the source
+                        // form prints the 4-byte atom "0x41" (a string literal that went through a
+                        // macro) as 0x41, which reads as one byte.  Fields that differ in nothing
+                        // but atoms where one side holds the bytes the other side's text reads to
+                        // say the same thing in two spellings
+                        if x.get(&k) != y.get(&k) {
+                            let raw = |rs: &[Row]| rs.get(ri).and_then(|r| r.get(&k)).and_then(|t| read_val(t));
+                            if let (Some(vs), Some(vh)) = (raw(&rows), raw(&rows_h)) {
+                                if same_up_to_spelling(&vs, &vh) {
+                                    x.remove(&k);
+                                    y.remove(&k);
+                                    st.label("hex-vs-source:bare-word-that-reads-as-a-number(skipped)");
+                                }
+                            }
                         }
                     }
                 }
@@ -377,6 +411,22 @@ impl Prop for C12Prop {
                 }
             }
         }
+    }
+    fn describe(&self, sec: &str, input: &Input, tier: Tier) -> Option<Value> {
+        // (what a crashed or timed-out compiled case was: the orchestrator and `vcheck show` use it)
+        let Input::Bytes(bytes) = input else {
+            return None;
+        };
+        if sec != "compiled" {
+            return None;
+        }
+        let case = decode_case(bytes, tier, None);
+        let skip = bytes.len().saturating_sub(3);
+        let mut c = Choices::new(&bytes[skip..]);
+        let d = *c.choose(MODERN);
+        let text = render_program(&case.prog, Some(d));
+        let envs: Vec<Value> = case.args.iter().take(2).map(|a| json!({"env": a.show(), "env_hex": hex(&a.ser())})).collect();
+        Some(json!({"source": text, "dialect": d.name(), "env_hex": case.args.first().map(|a| hex(&a.ser())).unwrap_or_default(), "environments": envs}))
     }
     fn replay(&self, case: &Value, st: &mut Stats) -> Option<Verdict> {
         let e = sut::consensus_deserialize(&hex::decode(case.get("env_hex")?.as_str()?).ok()?).ok()?;
